@@ -363,8 +363,9 @@ func checkC18(c *Ctx) {
 	// the scanner reads the json tags the generator writes: name first, options after it
 	checkJSONTags(c, "C18.R4.json-tags", scan)
 	checkImportsIndexed(c, "C18.R5.imports-indexed", scan)
-	checkValueParsers(c, scan)
+	checkValueParsers(c, "C18.R4.value-parsers", scan)
 	checkStrfmtNames(c, gen)
+	checkIndexOrigin(c, "C18.R7.index-origin", gen, "WithAutoXOrder", 2)
 	checkPlatformSuffixes(c, "C18.R6.file-suffixes", gen)
 	checkExclusiveMarkers(c, ev)
 }
@@ -653,6 +654,35 @@ func checkDocLineFlags(c *Ctx, ev *tmpl.Evaluator) {
 					holds = false
 				}
 			}
+			// … and "set" means present: a keyword whose value is zero (maxLength: 0, minItems: 0) is
+			// a constraint like any other. The guard tests the field the line prints as it is, it does
+			// not hand it to a predicate on its value (gt0, gt, ne …).
+			if eol := strings.Index(l.Text[oc.Start:], "\n"); eol > 0 {
+				printed := map[string]bool{}
+				for _, m := range regexp.MustCompile(`⟦([^⟧]*)⟧`).FindAllStringSubmatch(l.Text[oc.Start:oc.Start+eol], -1) {
+					for _, f := range regexp.MustCompile(`\.[A-Z]\w*`).FindAllString(m[1], -1) {
+						printed[f] = true
+					}
+				}
+				pred := ""
+				toks := strings.Fields(strings.NewReplacer("(", " ( ", ")", " ) ").Replace(inner.Pipe))
+				for i, tk := range toks {
+					if tk == "and" || tk == "or" || tk == "not" || tk == "(" || tk == ")" || strings.HasPrefix(tk, ".") || strings.HasPrefix(tk, "$") {
+						continue
+					}
+					// a function word: does it take a printed field?
+					for _, arg := range toks[i+1:] {
+						if arg == ")" {
+							break
+						}
+						if printed[arg] {
+							pred = tk + " " + arg
+						}
+					}
+				}
+				c.Check(pred == "", rule, key+" › emitted when the keyword is present", l.Tree.PosStr(oc.Pos), "the guard tests the presence of the field, not its value",
+					fmt.Sprintf("the line is emitted under `%s`: a keyword set to a value the predicate rejects (maxLength: 0, minItems: 0 …) is left out of the doc comment, and the scanned spec no longer has the constraint", pred))
+			}
 			c.Check(holds, rule, key, l.Tree.PosStr(oc.Pos), "emitted whenever "+strings.TrimSpace(inner.Pipe)+" is set, whatever the other flags are",
 				fmt.Sprintf("the line is emitted under [%s]: a schema that sets only %s loses the keyword in the generated doc comment, and with it in the scanned spec", tmpl.GuardString(gs), strings.TrimSpace(inner.Pipe)))
 		}
@@ -743,8 +773,7 @@ func packageRegexpByName(pk *packages.Package, name string) (string, bool) {
 // parseValueFromSchema from SimpleSchema.TypeName(), which is the format when there is one. Every
 // (type, format) pair the scanner's own builtin table assigns to a numeric or boolean Go type must
 // therefore be a label of the case that parses that kind — otherwise the values come back as strings.
-func checkValueParsers(c *Ctx, scan *packages.Package) {
-	rule := "C18.R4.value-parsers"
+func checkValueParsers(c *Ctx, rule string, scan *packages.Package) {
 	c.Rule(rule, "parseValueFromSchema has, for every numeric/boolean (type, format) of the scanner's builtin table, a case labelled by the type name in use (the format if any) that parses that kind", 12)
 	fd := load.FuncDecl(scan, "parseValueFromSchema")
 	if fd == nil {
